@@ -22,6 +22,9 @@ import sys
 import time as _time
 
 _ADDR = re.compile(r" at 0x[0-9a-fA-F]+")
+# uuid4 identifiers (MessageQueue message ids, control hook ids) are labels, not statistics: they are
+# replaced by a placeholder; an ORDER or a count that depended on them would still change the digest
+_UUID = re.compile(r"[0-9a-f]{8}-[0-9a-f]{4}-[0-9a-f]{4}-[0-9a-f]{4}-[0-9a-f]{12}")
 _WALL = ("wall", "speedup", "elapsed_real", "real_time")
 
 
@@ -51,14 +54,16 @@ def _perturb(spec):
 
 def _strip(obj):
     if isinstance(obj, dict):
-        return {str(k): _strip(v) for k, v in sorted(obj.items(), key=lambda kv: str(kv[0])) if not any(w in str(k).lower() for w in _WALL)}
+        return {_UUID.sub("<uuid>", str(k)): _strip(v) for k, v in sorted(obj.items(), key=lambda kv: str(kv[0])) if not any(w in str(k).lower() for w in _WALL)}
     if isinstance(obj, (list, tuple)):
         return [_strip(x) for x in obj]
     if isinstance(obj, float):
         return repr(obj)
-    if isinstance(obj, (int, str, bool)) or obj is None:
+    if isinstance(obj, str):
+        return _UUID.sub("<uuid>", obj)
+    if isinstance(obj, (int, bool)) or obj is None:
         return obj
-    return _ADDR.sub("", repr(obj))
+    return _UUID.sub("<uuid>", _ADDR.sub("", repr(obj)))
 
 
 def main():
